@@ -384,6 +384,13 @@ func runC05(r *RunCtx) error {
 	if err := c05BusyChain(r); err != nil {
 		return err
 	}
+	// ------------------------------------------------------------------ (c0') parameters: every reachable edge, and the store of the earlier release
+	if err := c05ParamEdges(r); err != nil {
+		return err
+	}
+	if err := c05PersistedParams(r); err != nil {
+		return err
+	}
 	// ------------------------------------------------------------------ (c1) a few enormous (declared) files
 	if err := c05HugeFiles(r); err != nil {
 		return err
